@@ -76,3 +76,7 @@ func vconcreteInt(x int) int { return x }
 
 // vcheckEqInt checks x == k; the engine then treats x as the concrete value k.
 func vcheckEqInt(l string, x, k int) { vcheck(l, x == k) }
+
+// vclockbound: assumption on the environment clock — all later readings of the
+// (symbolic, non-decreasing) clock stay within d nanoseconds of the next reading.
+func vclockbound(d uint64) {}
